@@ -53,7 +53,7 @@ def plan(tier, seed):
 
 def floors(tier):
     return {'evaluations': 20000, 'distinct_nontrivial': 10000, 'comment_markers_checked': 20000,
-            'formula_markers_checked': 20000, 'discard_markers_checked': 5000, 'discards_with_blanks_between_arguments': 300, 'matrix_environments_with_comments': 100, 'histkeys:position': 15,
+            'formula_markers_checked': 20000, 'discard_markers_checked': 5000, 'discards_with_blanks_between_arguments': 300, 'matrix_environments_with_comments': 100, 'math_environments_with_blanks_after_begin_end': 100, 'histkeys:position': 15,
             'histkeys:math_env': 15, 'histkeys:option_cell': 24, 'k2_witness_checked': 1,
             'formulas_with_escaped_active_characters': 500, 'histkeys:entry_point': 3, 'crlf_documents': 500, 'hist:entry_point:latex2text()': 1000}
 
@@ -155,8 +155,13 @@ class Gen(object):
             env = None
         else:
             env = rng.choice(MATH_ENVS)
-            o = '\\begin{%s}' % env + ('{2}' if env.startswith('alignat') else '')
-            c = '\\end{%s}' % env
+            # blanks or a line end may stand between \begin / \end and the braced name
+            ws1, ws2 = ('', '')
+            if rng.random() < 0.25:
+                ws1, ws2 = rng.choice(['', ' ', '\n', '  ']), rng.choice(['', ' ', '\n'])
+                self.spaced_begin_end = getattr(self, 'spaced_begin_end', 0) + 1
+            o = '\\begin%s{%s}' % (ws1, env) + ('{2}' if env.startswith('alignat') else '')
+            c = '\\end%s{%s}' % (ws2, env)
         fctx = dict(ctx, formula=fid, position='formula')
         m = self.mark('F', fctx, fid=fid)
         body = [rng.choice(['x', 'a+b', 'y_1']), m['word']]
@@ -348,6 +353,7 @@ def run_shard(desc, rec):
         rec.monitor('formulas_with_escaped_active_characters', getattr(g, 'escaped_in_formula', 0))
         rec.monitor('discards_with_blanks_between_arguments', g.blank_layouts)
         rec.monitor('matrix_environments_with_comments', g.matrices)
+        rec.monitor('math_environments_with_blanks_after_begin_end', getattr(g, 'spaced_begin_end', 0))
         kinds = set(m['kind'] for m in g.markers)
         for _ in range(desc['optsper']):
             mm, kc, sp, ft = combos[ci % len(combos)]
